@@ -1,5 +1,5 @@
 (* C02 — The verification level alone decides which failed validations reject.
-   Statements only; every proof is [exact <lemma of C02_Core / C02_Proofs>].
+   Statements only; every proof is [exact <lemma of C02_Core / C02_Proofs / C02_Struct>].
 
    Objects (definitions in theories/):
      get_level name override        = SignatureVerification.GetVerificationLevel over the level
@@ -13,9 +13,12 @@
                                       consulted, plugin look-ups, verify-signature request.
      wf_sc sc                       = the plugin metadata lists each verification capability at
                                       most once (the only input contract).
-   Quantifiers: every level (all 3^4 action records, hence the 24 reachable maps), every scenario. *)
-From NV Require Import Base Regex Generated C02_Levels VerifyCore C02_Model C02_Core C02_Proofs.
+   Quantifiers: every level (all 3^4 action records, hence the 24 reachable maps), every scenario.
+   The theorems of the last part (audit round, proofs in theories/C02_Struct.v, by induction over the
+   capability list) need no input contract at all. *)
+From NV Require Import Base Regex Generated C02_Levels VerifyCore C02_Model C02_Core C02_Proofs C02_Struct.
 Open Scope string_scope.
+Open Scope list_scope.
 
 (* ------------------------------------------------------------------ *)
 (* the configuration space: 24 enforcement maps                        *)
@@ -62,7 +65,7 @@ Print Assumptions C02_levels_complete.
 Theorem C02_exact : forall lvl sc, wf_sc sc = true ->
   (accepted (verify_core lvl sc) = false <->
    s_integrity_ok sc = false \/ enforced_failure lvl sc = true \/ plugin_or_attribute_problem lvl sc = true).
-Proof. exact exact_thm. Qed.
+Proof. exact exact_thm_s. Qed.
 Print Assumptions C02_exact.
 
 (* "a validation whose action is enforce failed", spelled out *)
@@ -100,7 +103,7 @@ Print Assumptions C02_full_refuted.
    attribute present) the rule the property states holds exactly — non-critical attributes included *)
 Theorem C02_exact_partial : forall lvl sc, wf_sc sc = true -> f12b lvl sc = false ->
   (accepted (verify_core lvl sc) = false <-> should_fail_full lvl sc = true).
-Proof. exact exact_partial. Qed.
+Proof. exact exact_partial_s. Qed.
 Print Assumptions C02_exact_partial.
 
 (* outside the footprint, an accepted signature has no integer-labelled critical attribute and
@@ -113,7 +116,7 @@ Theorem C02_critical_processed_partial : forall lvl sc, wf_sc sc = true ->
         s_presp sc = PResp processed ti rev
         /\ o_exec (verify_core lvl sc) = Some (cs, attrs)
         /\ forall k, In k (other_crit sc) -> In k processed).
-Proof. exact critical_processed_partial. Qed.
+Proof. exact critical_processed_partial_s. Qed.
 Print Assumptions C02_critical_processed_partial.
 
 (* the pre-fix code (before 6f898df: processPluginResponse demanded that the executed plugin also
@@ -150,7 +153,7 @@ Theorem C02_log_does_not_fail : forall lvl sc, wf_sc sc = true ->
      accepted (verify_core lvl (set_ts_ok b sc)) = accepted (verify_core lvl sc))
   /\ (l_rev lvl <> Enforce -> forall b,
      accepted (verify_core lvl (set_rev_ok b sc)) = accepted (verify_core lvl sc)).
-Proof. exact log_does_not_fail. Qed.
+Proof. exact log_does_not_fail_s. Qed.
 Print Assumptions C02_log_does_not_fail.
 
 (* every reported result carries the action the level assigns to its type; the types come in the
@@ -167,7 +170,7 @@ Theorem C02_skip_not_performed : forall lvl sc, wf_sc sc = true -> l_rev lvl = S
   o_rev_called (verify_core lvl sc) = false
   /\ (forall cs attrs, o_exec (verify_core lvl sc) = Some (cs, attrs) -> ~ In CapRev cs)
   /\ (forall r, In r (o_results (verify_core lvl sc)) -> r_type r <> TRev).
-Proof. exact skip_not_performed. Qed.
+Proof. exact skip_not_performed_s. Qed.
 Print Assumptions C02_skip_not_performed.
 
 (* a capability the usable plugin declares replaces the native check: the whole observation is
@@ -181,7 +184,7 @@ Theorem C02_capability_replaces : forall lvl sc caps, usable_caps sc = Some caps
      (forall b, verify_core lvl (set_rev_ok b sc) = verify_core lvl sc)
      /\ (wf_sc sc = true -> o_rev_called (verify_core lvl sc) = false)
      /\ revocation_failed sc = match s_presp sc with PResp _ _ (Some false) => true | _ => false end).
-Proof. exact capability_replaces_thm. Qed.
+Proof. exact capability_replaces_s. Qed.
 Print Assumptions C02_capability_replaces.
 
 (* the plugin is asked for exactly its declared verification capabilities minus a skipped
@@ -189,7 +192,7 @@ Print Assumptions C02_capability_replaces.
 Theorem C02_plugin_request : forall lvl sc cs attrs, wf_sc sc = true ->
   o_exec (verify_core lvl sc) = Some (cs, attrs) ->
   cs = asked lvl sc /\ cs <> [] /\ attrs = other_keys sc.
-Proof. exact plugin_request. Qed.
+Proof. exact plugin_request_s. Qed.
 Print Assumptions C02_plugin_request.
 
 (* ------------------------------------------------------------------ *)
@@ -199,7 +202,7 @@ Print Assumptions C02_plugin_request.
 (* relaxing actions pointwise (enforce <= log <= skip) can only turn a rejection into an acceptance *)
 Theorem C02_monotone : forall l1 l2 sc, wf_sc sc = true -> level_le l1 l2 = true ->
   accepted (verify_core l1 sc) = true -> accepted (verify_core l2 sc) = true.
-Proof. exact monotone. Qed.
+Proof. exact monotone_s. Qed.
 Print Assumptions C02_monotone.
 
 (* strict implies permissive implies audit, for the same override of any length, over the level
@@ -208,7 +211,7 @@ Theorem C02_monotone_named : forall ov sc ls lp la, wf_sc sc = true ->
   level_for "strict" ov = Some ls -> level_for "permissive" ov = Some lp -> level_for "audit" ov = Some la ->
   (accepted (verify_core ls sc) = true -> accepted (verify_core lp sc) = true)
   /\ (accepted (verify_core lp sc) = true -> accepted (verify_core la sc) = true).
-Proof. exact monotone_named. Qed.
+Proof. exact monotone_named_s. Qed.
 Print Assumptions C02_monotone_named.
 
 (* ------------------------------------------------------------------ *)
@@ -256,3 +259,224 @@ Example C02_example_accept :
               false ["plug"] (Some ([CapTI; CapRev], ["foo"]))
     /\ f12b lvl sc = false /\ should_fail_full lvl sc = false.
 Proof. eexists. repeat split; vm_compute; reflexivity. Qed.
+
+(* ================================================================== *)
+(* audit round: the same clauses for EVERY scenario (no contract),     *)
+(* the reasons spelled out, what is performed, truthful outcomes       *)
+(* ================================================================== *)
+
+(* the acceptance rule holds for every scenario, duplicated capabilities included *)
+Theorem C02_exact_all : forall lvl sc,
+  accepted (verify_core lvl sc) = false <->
+  s_integrity_ok sc = false \/ enforced_failure lvl sc = true \/ plugin_or_attribute_problem lvl sc = true.
+Proof. exact exact_all_iff. Qed.
+Print Assumptions C02_exact_all.
+
+(* "plugin / attribute problem" is the disjunction of the four reasons below *)
+Theorem C02_problem_parts : forall lvl sc,
+  plugin_or_attribute_problem lvl sc = true <->
+  s_nonstring_crit sc = true                                (* integer-labelled critical attribute *)
+  \/ plugin_unusable sc = true
+  \/ plugin_exec_problem lvl sc = true
+  \/ negb (plugin_demanded sc) && nothing_processes lvl sc = true.
+Proof. exact problem_parts. Qed.
+Print Assumptions C02_problem_parts.
+
+(* the demanded plugin is unusable: the demand or the demanded minimum version is malformed, the plugin
+   is MISSING (no manager, not installed, no metadata), TOO OLD (version not SemVer or below the demanded
+   minimum) or LACKS VERIFICATION CAPABILITIES *)
+Theorem C02_plugin_unusable_spelled : forall sc,
+  plugin_unusable sc = true <->
+  plugin_demanded sc = true
+  /\ (Demand_malformed sc \/ Minver_malformed sc \/ Plugin_missing sc \/ Plugin_too_old sc
+      \/ Plugin_lacks_capabilities sc).
+Proof. exact plugin_unusable_iff. Qed.
+Print Assumptions C02_plugin_unusable_spelled.
+
+(* the executed plugin fails, leaves a critical extended attribute unprocessed, or OMITS A VERDICT IT WAS
+   ASKED FOR *)
+Theorem C02_plugin_exec_problem_spelled : forall lvl sc,
+  plugin_exec_problem lvl sc = true <->
+  asked lvl sc <> []
+  /\ (s_presp sc = PErr
+      \/ exists p ti rev, s_presp sc = PResp p ti rev
+           /\ ((exists k, In k (other_crit sc) /\ ~ In k p)
+               \/ (In CapTI (asked lvl sc) /\ ti = None)
+               \/ (In CapRev (asked lvl sc) /\ rev = None))).
+Proof. exact plugin_exec_problem_iff. Qed.
+Print Assumptions C02_plugin_exec_problem_spelled.
+
+(* no plugin is demanded and there is a critical extended attribute (a stray critical minimum-version
+   header counts): nothing can process it *)
+Theorem C02_no_plugin_critical_spelled : forall lvl sc,
+  negb (plugin_demanded sc) && nothing_processes lvl sc = true <->
+  s_plugin_attr sc = AAbsent
+  /\ (other_crit sc <> [] \/ (s_minver_attr sc <> AAbsent /\ s_minver_attr sc <> ANotCritical)).
+Proof. exact no_plugin_critical_iff. Qed.
+Print Assumptions C02_no_plugin_critical_spelled.
+
+(* monotonicity for every scenario *)
+Theorem C02_monotone_all : forall l1 l2 sc, level_le l1 l2 = true ->
+  accepted (verify_core l1 sc) = true -> accepted (verify_core l2 sc) = true.
+Proof. exact monotone_all. Qed.
+Print Assumptions C02_monotone_all.
+
+Theorem C02_monotone_named_all : forall ov sc ls lp la,
+  level_for "strict" ov = Some ls -> level_for "permissive" ov = Some lp -> level_for "audit" ov = Some la ->
+  (accepted (verify_core ls sc) = true -> accepted (verify_core lp sc) = true)
+  /\ (accepted (verify_core lp sc) = true -> accepted (verify_core la sc) = true).
+Proof. exact monotone_named_all. Qed.
+Print Assumptions C02_monotone_named_all.
+
+(* WHICH validations notation performs, as a function of level and scenario (not only "not when
+   skipped"): authenticity after integrity and plugin discovery; expiry unless authenticity was an
+   enforced failure; the timestamp unless expiry was; revocation — the validator is consulted — exactly
+   when all of these passed, the level does not skip revocation and the plugin does not own it *)
+Theorem C02_revocation_consulted_exact : forall lvl sc,
+  o_rev_called (verify_core lvl sc) = performed lvl sc TRev.
+Proof. exact rev_called_exact. Qed.
+Print Assumptions C02_revocation_consulted_exact.
+
+(* a performed validation is in the outcome; and nothing else is, apart from the revocation verdict of
+   an executed plugin that was asked for it *)
+Theorem C02_performed_reported : forall lvl sc t,
+  (performed lvl sc t = true -> exists r, In r (o_results (verify_core lvl sc)) /\ r_type r = t)
+  /\ ((exists r, In r (o_results (verify_core lvl sc)) /\ r_type r = t) ->
+      performed lvl sc t = true
+      \/ (t = TRev /\ plugin_run lvl sc = true /\ In CapRev (asked lvl sc))).
+Proof. exact performed_reported. Qed.
+Print Assumptions C02_performed_reported.
+
+(* the plugin is executed exactly when discovery succeeded, no native validation was an enforced failure
+   and some declared capability is left to ask after dropping a skipped revocation; it is then asked for
+   exactly those capabilities and handed every non-plugin extended attribute *)
+Theorem C02_plugin_executed_exact : forall lvl sc,
+  o_exec (verify_core lvl sc) = if plugin_run lvl sc then Some (asked lvl sc, other_keys sc) else None.
+Proof. exact exec_exact. Qed.
+Print Assumptions C02_plugin_executed_exact.
+
+(* every reported result — in rejected runs too — carries the action of the level and tells the truth:
+   expiry, timestamp and revocation (native or the plugin's verdict, whoever owns it) exactly;
+   authenticity is reported failed only if it failed and always when notation's own part failed *)
+Theorem C02_results_truthful : forall lvl sc r, In r (o_results (verify_core lvl sc)) ->
+  r_action r = act_of lvl (r_type r)
+  /\ (r_type r = TIntegrity -> r_failed r = negb (s_integrity_ok sc))
+  /\ (r_type r = TExpiry -> r_failed r = s_expired sc)
+  /\ (r_type r = TTimestamp -> r_failed r = negb (s_ts_ok sc))
+  /\ (r_type r = TRev -> r_failed r = revocation_failed sc)
+  /\ (r_type r = TAuth -> (r_failed r = true -> authenticity_failed sc = true)
+                          /\ (native_auth_failed sc = true -> r_failed r = true)).
+Proof. exact results_truthful. Qed.
+Print Assumptions C02_results_truthful.
+
+(* a failed validation whose action is log is reported whenever it is performed — also when a LATER
+   enforced failure rejects the signature *)
+Theorem C02_log_reported_always : forall lvl sc t,
+  t <> TIntegrity -> performed lvl sc t = true -> act_of lvl t = Log -> native_failed_fact sc t = true ->
+  In (mk_res t Log true) (o_results (verify_core lvl sc)).
+Proof. exact log_reported_always. Qed.
+Print Assumptions C02_log_reported_always.
+
+(* skipped revocation is not performed at all, for every scenario *)
+Theorem C02_skip_not_performed_all : forall lvl sc, l_rev lvl = Skip ->
+  o_rev_called (verify_core lvl sc) = false
+  /\ (forall cs attrs, o_exec (verify_core lvl sc) = Some (cs, attrs) -> ~ In CapRev cs)
+  /\ (forall r, In r (o_results (verify_core lvl sc)) -> r_type r <> TRev).
+Proof. exact skip_all. Qed.
+Print Assumptions C02_skip_not_performed_all.
+
+(* a declared revocation capability replaces the native check: the validator is never consulted *)
+Theorem C02_rev_capability_not_consulted : forall lvl sc,
+  has_cap CapRev (caps_of sc) = true -> o_rev_called (verify_core lvl sc) = false.
+Proof. exact rev_capability_not_consulted. Qed.
+Print Assumptions C02_rev_capability_not_consulted.
+
+(* the contract-free oracle evaluated by the harness on EVERY case: the model meets it outside the
+   footprint of the known finding *)
+Theorem C02_model_meets_oracle_all_partial : forall i, fp i = 0%N -> spec_all i (model i) = true.
+Proof. exact model_spec_all_partial. Qed.
+Print Assumptions C02_model_meets_oracle_all_partial.
+
+(* ------------------------------------------------------------------ *)
+(* non-vacuity of the audit-round theorems                             *)
+(* ------------------------------------------------------------------ *)
+
+(* each reason of the property text ALONE rejects: level audit (no validation can reject), everything
+   valid; plugin not installed / too old / without verification capability / omitting the verdict asked
+   for / leaving the critical attribute "foo" unprocessed; and the well-behaved plugin is accepted *)
+Definition ex_plug (p : pm) (r : presp) : scenario :=
+  mk_sc true (AStr "plug") (AStr "1.0.0") true [("foo", true)] false 0 true false true true p r.
+Example C02_example_reasons :
+  let audit := mk_level Log Log Log Log in
+  let good := PResp ["foo"] (Some true) (Some true) in
+  accepted (verify_core audit (ex_plug (PMPlugin true true [CapTI; CapRev]) good)) = true
+  /\ o_err (verify_core audit (ex_plug PMNotInstalled good)) = EInconclusive
+  /\ o_err (verify_core audit (ex_plug (PMPlugin true false [CapTI; CapRev]) good)) = EInconclusive
+  /\ o_err (verify_core audit (ex_plug (PMPlugin true true [CapOther]) good)) = EInconclusive
+  /\ o_err (verify_core audit (ex_plug (PMPlugin true true [CapTI; CapRev]) (PResp ["foo"] (Some true) None))) = EInconclusive
+  /\ o_err (verify_core audit (ex_plug (PMPlugin true true [CapTI; CapRev]) (PResp [] (Some true) (Some true)))) = EOther
+  /\ Plugin_missing (ex_plug PMNotInstalled good)
+  /\ Plugin_too_old (ex_plug (PMPlugin true false [CapTI; CapRev]) good)
+  /\ Plugin_lacks_capabilities (ex_plug (PMPlugin true true [CapOther]) good).
+Proof.
+  repeat split; try (vm_compute; reflexivity).
+  - right. left. reflexivity.
+  - exists true, false, [CapTI; CapRev]. split; [reflexivity | right; reflexivity].
+  - exists true, true, [CapOther]. cbn. repeat split; intros [H|[]]; discriminate H.
+Qed.
+
+(* monotonicity is strict: the same expired signature of a revoked certificate is rejected under strict
+   (on expiry), accepted under permissive and audit with both failures reported (action log), and
+   rejected again (on revocation) when the override of permissive enforces revocation *)
+Example C02_example_monotone_strict :
+  let sc := mk_sc true AAbsent AAbsent false [] false 0 true true true false PMNil PErr in
+  exists ls lp la lpe,
+    level_for "strict" [] = Some ls /\ level_for "permissive" [] = Some lp /\ level_for "audit" [] = Some la
+    /\ level_for "permissive" [("revocation", "enforce")] = Some lpe
+    /\ o_err (verify_core ls sc) = EResult TExpiry
+    /\ accepted (verify_core lp sc) = true
+    /\ In (mk_res TExpiry Log true) (o_results (verify_core lp sc))
+    /\ In (mk_res TRev Log true) (o_results (verify_core lp sc))
+    /\ o_err (verify_core lpe sc) = EResult TRev
+    /\ accepted (verify_core la sc) = true
+    /\ level_le ls lp = true /\ level_le lp la = true /\ level_le lpe lp = true.
+Proof. do 4 eexists. repeat split; vm_compute; auto 10. Qed.
+
+(* a logged failure in a REJECTED run: permissive with revocation enforced; the expired signature of a
+   revoked certificate is rejected on revocation, and the logged expiry failure is in the outcome *)
+Example C02_example_log_in_rejected_run :
+  let sc := mk_sc true AAbsent AAbsent false [] false 0 true true true false PMNil PErr in
+  exists lvl, level_for "audit" [("revocation", "enforce")] = Some lvl
+    /\ performed lvl sc TExpiry = true /\ act_of lvl TExpiry = Log /\ native_failed_fact sc TExpiry = true
+    /\ verify_core lvl sc =
+       mk_obs (EResult TRev)
+              [mk_res TIntegrity Enforce false; mk_res TAuth Log false; mk_res TExpiry Log true;
+               mk_res TTimestamp Log false; mk_res TRev Enforce true]
+              true [] None.
+Proof. eexists. repeat split; vm_compute; reflexivity. Qed.
+
+(* skip: strict with revocation skipped, plugin with both capabilities: executed for trusted identity
+   only, validator not consulted, no revocation result although the certificate is revoked *)
+Example C02_example_skip :
+  let sc := mk_sc true (AStr "plug") AAbsent false [] false 0 false false true false
+                  (PMPlugin true true [CapRev; CapTI]) (PResp [] (Some true) (Some false)) in
+  exists lvl, level_for "strict" [("revocation", "skip")] = Some lvl /\ l_rev lvl = Skip
+    /\ verify_core lvl sc =
+       mk_obs ENone
+              [mk_res TIntegrity Enforce false; mk_res TAuth Enforce false; mk_res TExpiry Enforce false;
+               mk_res TTimestamp Enforce false]
+              false ["plug"] (Some ([CapTI], [])).
+Proof. eexists. repeat split; vm_compute; reflexivity. Qed.
+
+(* outside the contract wf_sc: the revocation capability declared twice; the plugin's verdict is examined
+   (and reported) twice; the contract-free theorems apply, acceptance follows the level *)
+Example C02_example_duplicates :
+  let sc := mk_sc true (AStr "plug") AAbsent false [] false 0 true false true true
+                  (PMPlugin true true [CapRev; CapRev]) (PResp [] None (Some false)) in
+  wf_sc sc = false
+  /\ accepted (verify_core (mk_level Enforce Enforce Enforce Log) sc) = true
+  /\ o_results (verify_core (mk_level Enforce Enforce Enforce Log) sc) =
+     [mk_res TIntegrity Enforce false; mk_res TAuth Enforce false; mk_res TExpiry Enforce false;
+      mk_res TTimestamp Enforce false; mk_res TRev Log true; mk_res TRev Log true]
+  /\ o_err (verify_core (mk_level Enforce Enforce Enforce Enforce) sc) = EResult TRev.
+Proof. repeat split; vm_compute; reflexivity. Qed.
